@@ -11,6 +11,7 @@ def run(chk):
     chk.technique = ("abstract interpretation of each Conversion<U,X>::{To,From}Standard<T> body in an affine domain over Q(pi) "
                      "with a rounding counter; compared with the SI magnitude obtained by parsing the unit's own abbreviation "
                      "with an independent unit grammar/lexicon (oracle/units.py); dispatch tables read from the AST")
+    chk.rule("R0", "the unit oracle is self-consistent on a list of redundant definitions")
     chk.rule("R1", "ToStandard denotes value -> a*value + b with (a, b) exactly the magnitude/offset implied by the unit's symbol")
     chk.rule("R2", "FromStandard o ToStandard is the identity as affine maps over Q(pi)")
     chk.rule("R3", "MapOfConversions{To,From}Standard<U,T>[X] is Conversions<U,X>::{To,From}Standard<T>, which applies Conversion<U,X> to each of `size` elements")
@@ -23,6 +24,12 @@ def run(chk):
         "ulp error of the affine units (degC, degF) near cancellation and the subnormal range are NOT decided",
         "unit symbols are read with oracle/units.py (definitions: SI brochure 2019, 1959 yard/pound agreement, g0 = 9.80665, cal_th, BTU_IT)",
     ]
+    from ..units_model import U as _U
+    from ..frontend import AnalysisBroken
+    fails = _U.self_check()
+    if fails:
+        raise AnalysisBroken("unit oracle is internally inconsistent: " + "; ".join(fails[:3]))
+    chk.holds("R0", "oracle self-check", "redundant definitions agree (mile = 5280 ft, acre = 43560 ft^2, kn = nmi/hr, slug = lbf s^2/ft, psi, W = J/s, P = g/cm/s, kiB, BTU_IT, degF fixed points, ...)", "oracle/units.py")
     n_types = n_units = n_bodies = 0
     kmax = {}
     ulp_max = {}
